@@ -23,7 +23,7 @@ func GenC14(r *core.Rand, tier string) core.Schedule {
 	g.kg = fsmsim.NewKeyGen(r.Fork("keys"), false, 3)
 	cfg.Keys = g.kg.Keys()
 	cfg.Leaders = []int{1, 3, 3}[r.Intn(3)]
-	cfg.Tables = []string{"ta", "tb", "tc", "td"}[:r.Range(2, 4)]
+	cfg.Tables = []string{"ta", "ta-x", "tb", "t"}[:r.Range(2, 4)] // names that are prefixes of each other
 	cfg.InitialTables = r.Range(0, 1)
 	cfg.SnapshotEntries = []uint64{0, 10}[r.Intn(2)]
 	cfg.CompactionOverhead = 3
@@ -35,7 +35,10 @@ func GenC14(r *core.Rand, tier string) core.Schedule {
 	for len(steps) < n {
 		t := r.Intn(len(cfg.Tables))
 		nd := r.Intn(cfg.Leaders)
-		switch r.Pick([]int{22, 14, 10, 20, 10, 10, 5, 5, 4}) {
+		switch r.Pick([]int{22, 14, 10, 20, 10, 10, 5, 5, 4, 5}) {
+		case 9:
+			// operator backup and restore: the catalogue carries a recovery shard id while it runs
+			steps = append(steps, Step{Op: "backup", N: nd, Cnt: 0}, Step{Op: "restore", N: nd, Cnt: 0}, Step{Op: "advance", Ms: 1511})
 		case 0:
 			steps = append(steps, Step{Op: "ccreate", N: nd, T: t})
 		case 1:
@@ -148,7 +151,12 @@ func (r *run) replayMeta() ([]metaEntry, []map[string]uint64) {
 							}
 							_ = json.Unmarshal([]byte(me.val), &t)
 							cat[name] = t.ClusterID
+							if r.recoverIDs == nil {
+								r.recoverIDs = map[string]uint64{}
+							}
+							r.recoverIDs[name] = t.RecoverID
 						} else {
+							delete(r.recoverIDs, name)
 							delete(cat, name)
 						}
 					}
@@ -423,9 +431,12 @@ func (r *run) checkReconciled() {
 	_, cats := r.replayMeta()
 	final := cats[len(cats)-1]
 	want := map[uint64]bool{}
-	for _, id := range final {
+	for name, id := range final {
 		if id != 0 {
 			want[id] = true
+		}
+		if rid := r.recoverIDs[name]; rid != 0 {
+			want[rid] = true // a restore in progress (or failed): its recovery shard is catalogued as well
 		}
 	}
 	for _, n := range r.w.leaders {
